@@ -147,6 +147,11 @@ def gen_table(rng, name, earlier, used_names, odd=False, max_cols=6, funcs=False
             cols[-1]["computed"]["nullable_unset"] = True
             cols[-1]["nullable"] = True
     t = {"name": name, "cols": cols, "uqs": [], "ixs": [], "fks": []}
+    if rng.random() < 0.2:
+        t["comment"] = rng.choice(["a table", "it's", "x"])
+    for c in cols:
+        if not c.get("computed") and rng.random() < 0.12:
+            c["comment"] = rng.choice(["note", "unit: kg", "it's"])
     for _ in range(rng.choice([0, 0, 1, 1, 2, 3])):
         ix = gen_index(rng, t, used_names)
         used_names.add(ix["name"])
